@@ -57,6 +57,13 @@ def indexer_model_validate():
     return indexer_model.validate(5)
 
 
+def anp_ns():
+    """the abstract NumPy namespace the geom backend installs for block functions"""
+    import cubed.core.ops as ops
+
+    return ops.nxp
+
+
 def _xp():
     import cubed.array_api as xp
 
@@ -930,6 +937,28 @@ def sc_meshgrid3(n0, n1, n2, c, ij, which, e0, e1, e2):
     sx.require(anp.term_mult(t, ("xyz"[w], (idx[axis_of],))) == 1, "meshgrid-varies-along-the-wrong-axis", f"grid {w} at {idx}: {t}")
 
 
+def sc_map_blocks_drop_axis2(n, m, c, c2):
+    """map_blocks over TWO arrays with a dropped axis: w (m,) and y (n, m); f(w, y) = w + sum(y, axis=0).  cubed does not
+    concatenate along a dropped axis, so it must refuse unless y has a single chunk along axis 0 -- whichever argument comes first"""
+    _start()
+    import cubed
+
+    sx.assume(c <= n)
+    sx.assume(c2 <= m)
+    w = G.stub_array("w", (m,), (c2,))
+    y = G.stub_array("y", (n, m), (c, c2))
+    nxp_ = anp_ns()
+
+    def f(a, b):
+        return a + nxp_.sum(b, axis=0)
+
+    out = cubed.map_blocks(f, w, y, dtype="float64", drop_axis=0, chunks=w.chunks)
+    sx.require(c == n, "accepted-several-chunks-along-a-dropped-axis", f"y has chunks ({c}, {c2}) of ({n}, {m})")
+    _declared_ok(out, (m,))
+    if MODE == "route":
+        raise _Done()
+
+
 def sc_max_split(n, c, s, j):
     _start()
     sx.assume(c <= n)
@@ -1030,6 +1059,7 @@ EXTRA_SCENARIOS = {
     "argmax": (sc_argmax, lambda N: [("n", 1, N), ("c", 1, N), ("s", 2, 3), ("ax", 0, 1)]),
     **{f"{k}[1d]": (_sc_reduce_1d(k), lambda N: [("n", 1, 48), ("c", 1, 24), ("s", 2, 3)]) for k in ("var-float32", "var-float64", "mean-float32", "sum-int8")},
     **{f"{k}[axis0-2d]": (_sc_reduce_axis0(k), lambda N: [("n", 1, 4), ("m", 1, N), ("c", 1, 2), ("c2", 1, N), ("s", 2, 3)]) for k in _REDUCE_KINDS},
+    "map_blocks[drop_axis,two-arrays]": (sc_map_blocks_drop_axis2, lambda N: [("n", 1, 4), ("m", 1, N), ("c", 1, 4), ("c2", 1, N)]),
     "add[astype-int8]": (sc_add_astype_narrow, lambda N: [("n", 1, N), ("c", 1, N), ("e", 0, N)]),
     "tensordot[2-axes]": (sc_tensordot, lambda N: [("n", 1, 4), ("c", 1, 4), ("order", 0, 1)]),
 }
